@@ -205,3 +205,41 @@ func VerifC31Concurrent() {
 	m.check(x)
 	vReach("end")
 }
+
+// two mutators on different elements of the same region of the trie run as goroutines (a retained message set
+// or cleared on a topic; a client or inline subscription added or removed on a filter over it): whatever the
+// interleaving at the lock operations within the pre-emption bound, the index afterwards answers as the model
+// with both operations applied (they commute in the model)
+func VerifC31Writers() {
+	x := NewTopicsIndex()
+	var m c31Model
+	// pre-state chosen so that removals prune: c2 holds the filter that may be removed, a/b may be retained
+	fi := []int{1, 2, 3}[vChoose(3)]
+	if vBool() {
+		m.apply(x, 0, 1, fi, 0)
+	}
+	ti := vChoose(2)
+	if vBool() {
+		m.apply(x, 4, 0, 0, ti)
+	}
+	op1 := 4 + vChoose(2) // retain set / clear on topic ti
+	op2 := vChoose(4)     // subscribe / unsubscribe (c2) / inline subscribe / inline unsubscribe on filter fi
+	done := make(chan bool, 2)
+	var m1, m2 c31Model
+	m1, m2 = m, m
+	go func() {
+		m1.apply(x, op1, 0, 0, ti)
+		done <- true
+	}()
+	go func() {
+		m2.apply(x, op2, 1, fi, 0)
+		done <- true
+	}()
+	<-done
+	<-done
+	// the two operations touch different elements of the model: merge their effects
+	m.retained = m1.retained
+	m.subs, m.inline = m2.subs, m2.inline
+	m.check(x)
+	vReach("end")
+}
